@@ -30,8 +30,20 @@ type dloopSys struct {
 	pendUnsub sets.String
 	c2s       []dmsg
 	s2c       []string
-	// oracle only: the fold of every change the client has sent
-	sentFold sets.String
+	// oracle only: the fold of every change the client has sent; the names the last response that went out carried
+	sentFold   sets.String
+	lastGen    []string
+	sentThisOp bool
+}
+
+// newNames is the `newResourceNames` argument the real pushDeltaXds hands to sendDelta for a response carrying the
+// names `tok`: decided by the REAL shouldSetWatchedResources (non-nil for wildcard types whose generator does not
+// manage the names: the record is replaced by what the response carries).
+func (l *dloopSys) newNames(url, tok string) sets.String {
+	if _, setsWatched, _ := pxds.VerifC04TypePredicates(url); setsWatched {
+		return sets.New(wire.DecList(tok)...)
+	}
+	return nil
 }
 
 func newDloop(ty string) *dloopSys {
@@ -68,6 +80,8 @@ func (l *dloopSys) apply(f []string) (out string) {
 		}
 	}()
 	url := typeURL[l.ty]
+	before := len(l.s2c)
+	defer func() { l.sentThisOp = len(l.s2c) > before }()
 	switch f[0] {
 	case "case":
 		*l = *newDloop(f[3])
@@ -103,8 +117,9 @@ func (l *dloopSys) apply(f []string) (out string) {
 		if respond {
 			n := wire.Dec(f[1])
 			l.sut.ds.fail = false
-			_ = pxds.VerifSendDelta(l.sut.dcon, &discovery.DeltaDiscoveryResponse{TypeUrl: url, Nonce: n}, nil)
+			_ = pxds.VerifSendDelta(l.sut.dcon, &discovery.DeltaDiscoveryResponse{TypeUrl: url, Nonce: n}, l.newNames(url, f[2]))
 			l.s2c = append(l.s2c, n)
+			l.lastGen = wire.DecList(f[2])
 		}
 	case "spush":
 		if l.sut.proxy.WatchedResources[url] == nil {
@@ -112,9 +127,10 @@ func (l *dloopSys) apply(f []string) (out string) {
 		}
 		n := wire.Dec(f[1])
 		l.sut.ds.fail = f[2] != "1"
-		_ = pxds.VerifSendDelta(l.sut.dcon, &discovery.DeltaDiscoveryResponse{TypeUrl: url, Nonce: n}, nil)
+		_ = pxds.VerifSendDelta(l.sut.dcon, &discovery.DeltaDiscoveryResponse{TypeUrl: url, Nonce: n}, l.newNames(url, f[3]))
 		if f[2] == "1" {
 			l.s2c = append(l.s2c, n)
+			l.lastGen = wire.DecList(f[3])
 		}
 	default:
 		return "bad-op"
@@ -122,7 +138,10 @@ func (l *dloopSys) apply(f []string) (out string) {
 	return l.show()
 }
 
-var dloopTypes = []string{"EDS", "RDS", "SDS", "ECDS", "CDS", "LDS", "NDS", "WAUTH"}
+// what the generators may answer with (the names a response carries)
+var genUniverse = []string{"a", "b", "c", "x"}
+
+var dloopTypes = []string{"EDS", "RDS", "SDS", "ECDS", "EDS", "RDS", "CDS", "LDS", "NDS", "WAUTH"}
 
 func genDloop(seed uint64, n int, outp string) {
 	out := wire.Create(outp)
@@ -163,10 +182,10 @@ func genDloop(seed uint64, n int, outp string) {
 					out.Line("crecv", "-")
 				}
 			case 6, 7, 8:
-				out.Line("srecv", wire.Enc(nonce()))
+				out.Line("srecv", wire.Enc(nonce()), wire.EncList(wire.Subset(r, genUniverse, 1, 2)))
 			default:
 				// a push: often right after a response went out, so that it overtakes the ACK of that response
-				out.Line("spush", wire.Enc(nonce()), wire.B(r.Chance(7, 8)))
+				out.Line("spush", wire.Enc(nonce()), wire.B(r.Chance(7, 8)), wire.EncList(wire.Subset(r, genUniverse, 1, 2)))
 			}
 		}
 		if r.Chance(3, 4) {
@@ -174,7 +193,7 @@ func genDloop(seed uint64, n int, outp string) {
 				out.Line("cflush")
 			}
 			for k := 0; k < 10; k++ {
-				out.Line("srecv", wire.Enc(nonce()))
+				out.Line("srecv", wire.Enc(nonce()), wire.EncList(wire.Subset(r, genUniverse, 1, 2)))
 				out.Line("crecv", "-")
 			}
 		}
@@ -209,8 +228,17 @@ func oracleDloop(in, outp string) {
 		if l.apply(f) == "crash" && verdict == "" {
 			verdict = fmt.Sprintf("FAIL never-crashes op=%d", idx)
 		}
+		w := l.sut.proxy.WatchedResources[typeURL[l.ty]]
+		if !namedType(l.ty) && verdict == "" {
+			// wildcard types: the record is what the client holds, i.e. the names of the last response that went out,
+			// changed by nothing but the client's own later subscription changes (bookkeeping: property C03); here only:
+			// right after a response went out the record is what it carried
+			if (f[0] == "srecv" || f[0] == "spush") && l.sentThisOp && (w == nil || !sameNames(l.lastGen, w.ResourceNames)) {
+				verdict = fmt.Sprintf("FAIL wildcard-record-is-what-the-last-response-carried op=%d %s", idx, wire.Enc(l.show()))
+			}
+			continue
+		}
 		if len(l.c2s) == 0 && verdict == "" {
-			w := l.sut.proxy.WatchedResources[typeURL[l.ty]]
 			var rec sets.String
 			if w != nil {
 				rec = w.ResourceNames
